@@ -8,6 +8,7 @@ import (
 	"os"
 	"path/filepath"
 	"strings"
+	"syscall"
 
 	"github.com/emersion/go-webdav"
 	"github.com/emersion/go-webdav/verifharness/fw"
@@ -33,13 +34,21 @@ import (
 //                under exactly the names such links would reach.
 
 type stateStep struct {
-	Method string `json:"method"`
-	Path   string `json:"path"`
-	Dest   string `json:"dest,omitempty"`
-	Depth  string `json:"depth,omitempty"`
+	Method    string `json:"method"`
+	Path      string `json:"path"`
+	Dest      string `json:"dest,omitempty"`
+	Depth     string `json:"depth,omitempty"`
+	Overwrite string `json:"overwrite,omitempty"`
 }
 
 func (s *sandbox) serveStep(c *fw.Ctx, h http.Handler, slice string, st stateStep, trace []stateStep) bool {
+	ok, _ := s.serveStepRec(c, h, slice, st, trace)
+	return ok
+}
+
+// serveStepRec is serveStep that also hands back the recorded answer (nil
+// after a panic).
+func (s *sandbox) serveStepRec(c *fw.Ctx, h http.Handler, slice string, st stateStep, trace []stateStep) (bool, *httptest.ResponseRecorder) {
 	var req *http.Request
 	if st.Method == "PUT" {
 		req = httptest.NewRequest(st.Method, "http://dav.test"+st.Path, strings.NewReader("written by a later request"))
@@ -52,6 +61,9 @@ func (s *sandbox) serveStep(c *fw.Ctx, h http.Handler, slice string, st stateSte
 	if st.Depth != "" {
 		req.Header.Set("Depth", st.Depth)
 	}
+	if st.Overwrite != "" {
+		req.Header.Set("Overwrite", st.Overwrite)
+	}
 	before := s.outside()
 	rec := httptest.NewRecorder()
 	c.Journal(map[string]interface{}{"slice": slice, "step": st, "trace": trace})
@@ -60,7 +72,7 @@ func (s *sandbox) serveStep(c *fw.Ctx, h http.Handler, slice string, st stateSte
 	c.Eval(1)
 	if panicked {
 		c.Report(slice+"|panic|"+fw.PanicSite(stack), fmt.Sprintf("handler panicked: %v", pv), map[string]interface{}{"slice": slice, "trace": trace})
-		return false
+		return false, nil
 	}
 	after := s.outside()
 	c.Observe("state_slices", fmt.Sprintf("%s: %s -> %d", slice, st.Method, rec.Code), 1)
@@ -96,7 +108,7 @@ func (s *sandbox) serveStep(c *fw.Ctx, h http.Handler, slice string, st stateSte
 			break
 		}
 	}
-	return ok
+	return ok, rec
 }
 
 func runMissingRoot(c *fw.Ctx) {
@@ -133,6 +145,131 @@ func runMissingRoot(c *fw.Ctx) {
 				os.RemoveAll(filepath.Join(sb.base, top))
 			}
 		}
+	}
+}
+
+// Special members: the collections a request names hold members that cannot be
+// read or copied - a Unix socket, a symbolic link that leads nowhere, one that
+// leads to itself, a file without permissions. COPY, MOVE and DELETE meet them
+// on their walk, with every kind of Destination (new, an existing collection,
+// an existing file, nested) and every Overwrite / Depth header. Whatever is
+// answered: nothing outside changes, and when the answer is a multi-status
+// (RFC 4918 allows one that names the member that failed) its paths are judged
+// like every other reported path.
+var specialKinds = map[string]string{"/plain": "none", "/withsock": "socket", "/withlink": "dangling-link", "/withloop": "link-loop", "/withdeny": "no-permission",
+	"/withlink/sub": "dangling-link", "/withsock/sub/zz.sock": "socket", "/withlink/sub/zz-dangling": "dangling-link"}
+
+func (s *sandbox) buildSpecialTree() (skipped []string, err error) {
+	os.RemoveAll(s.root)
+	for _, d := range []string{"plain/sub", "withsock/sub", "withlink/sub", "withloop/sub", "withdeny/sub", "old/keep"} {
+		if err := os.MkdirAll(filepath.Join(s.root, d), 0755); err != nil {
+			return nil, err
+		}
+	}
+	for _, f := range []string{"plain/a.txt", "plain/sub/b.txt", "withsock/a.txt", "withsock/sub/b.txt", "withlink/a.txt", "withlink/sub/b.txt", "withloop/a.txt", "withloop/sub/b.txt",
+		"withdeny/a.txt", "withdeny/sub/b.txt", "old/keep/k", "oldfile.txt"} {
+		if err := ioutil.WriteFile(filepath.Join(s.root, f), []byte("content of "+f), 0644); err != nil {
+			return nil, err
+		}
+	}
+	// the special members sort after their ordinary neighbours, so that a
+	// walk has copied something before it meets them
+	if err := syscall.Mknod(filepath.Join(s.root, "withsock/sub/zz.sock"), syscall.S_IFSOCK|0644, 0); err != nil {
+		skipped = append(skipped, "socket: "+err.Error())
+	}
+	if err := os.Symlink("nowhere", filepath.Join(s.root, "withlink/sub/zz-dangling")); err != nil {
+		skipped = append(skipped, "dangling-link: "+err.Error())
+	}
+	if err := os.Symlink("zz-loop", filepath.Join(s.root, "withloop/sub/zz-loop")); err != nil {
+		skipped = append(skipped, "link-loop: "+err.Error())
+	}
+	if err := ioutil.WriteFile(filepath.Join(s.root, "withdeny/sub/zz-denied"), []byte("x"), 0); err != nil {
+		skipped = append(skipped, "no-permission: "+err.Error())
+	}
+	return skipped, nil
+}
+
+func runSpecialMembers(c *fw.Ctx) {
+	sb, err := newSandbox(filepath.Join(c.WorkDir, "c03-special-members-q7x9z"))
+	if err != nil {
+		c.Inconclusive(err.Error())
+		return
+	}
+	defer os.RemoveAll(sb.base)
+	h := &webdav.Handler{FileSystem: webdav.LocalFileSystem(sb.root)}
+	sources := []string{"/plain", "/withsock", "/withlink", "/withloop", "/withdeny", "/withlink/sub", "/withsock/sub/zz.sock", "/withlink/sub/zz-dangling"}
+	dests := [][2]string{{"/new", "new"}, {"/old", "existing-collection"}, {"/oldfile.txt", "existing-file"}, {"/old/keep", "nested-existing"}, {"/plain/sub/new", "nested-new"}}
+	var steps []stateStep
+	for _, src := range sources {
+		for _, d := range dests {
+			for _, ow := range []string{"", "T", "F"} {
+				for _, depth := range []string{"", "infinity", "0"} {
+					steps = append(steps, stateStep{Method: "COPY", Path: src, Dest: d[0], Overwrite: ow, Depth: depth})
+				}
+				steps = append(steps, stateStep{Method: "MOVE", Path: src, Dest: d[0], Overwrite: ow})
+			}
+		}
+		steps = append(steps, stateStep{Method: "DELETE", Path: src})
+	}
+	// listings where no symbolic link is met (those are out of scope)
+	for _, p := range []string{"/plain", "/withsock", "/withsock/sub/zz.sock", "/withdeny"} {
+		for _, depth := range []string{"0", "1", "infinity"} {
+			steps = append(steps, stateStep{Method: "PROPFIND", Path: p, Depth: depth})
+		}
+	}
+	destKind := map[string]string{}
+	for _, d := range dests {
+		destKind[d[0]] = d[1]
+	}
+	for i, st := range steps {
+		if !c.Mine(i) {
+			continue
+		}
+		skipped, err := sb.buildSpecialTree()
+		if err != nil {
+			c.Inconclusive("special members: " + err.Error())
+			return
+		}
+		for _, sk := range skipped {
+			c.Observe("special-members", "could not be made: "+sk, 1)
+		}
+		slice := fmt.Sprintf("special-members|%s", specialKinds[st.Path])
+		code := sb.specialStep(c, h, slice, st)
+		if code == 0 {
+			continue
+		}
+		c.Distinct(fmt.Sprintf("special-members|%s|%s|%s|ow=%s|depth=%s", st.Method, st.Path, destKind[st.Dest], st.Overwrite, st.Depth))
+		c.Observe("special-members", fmt.Sprintf("%s %s -> %s: %d", st.Method, specialKinds[st.Path], destKind[st.Dest], code), 1)
+	}
+}
+
+// specialStep serves one request of the special-members slice and judges it;
+// it returns the status (0 after a panic).
+func (s *sandbox) specialStep(c *fw.Ctx, h http.Handler, slice string, st stateStep) int {
+	trace := []stateStep{st}
+	_, rec := s.serveStepRec(c, h, slice, st, trace)
+	if rec == nil {
+		return 0
+	}
+	if rec.Code == 207 {
+		scope := []string{st.Path}
+		if st.Dest != "" {
+			scope = append(scope, st.Dest)
+		}
+		s.checkHrefs(c, slice+"|"+st.Method, map[string]interface{}{"slice": slice, "trace": trace, "status": rec.Code, "body": trunc(rec.Body.String(), 600)},
+			rec.Body.Bytes(), scope, true, false, inProcSender(h))
+	}
+	return rec.Code
+}
+
+func (s *sandbox) replaySpecialMembers(c *fw.Ctx, slice string, trace []stateStep) {
+	if _, err := s.buildSpecialTree(); err != nil {
+		fmt.Println("special members:", err)
+		return
+	}
+	h := &webdav.Handler{FileSystem: webdav.LocalFileSystem(s.root)}
+	for _, st := range trace {
+		fmt.Printf("step %+v -> status %d\n", st, s.specialStep(c, h, slice, st))
 	}
 }
 
